@@ -99,12 +99,11 @@ def findExtrema (sig : List Rat) (pad : Nat) (b : List Bool) (boundary : Int) (f
 
 /-! ## Specification (C02) -/
 
-/-- true rising crossings: `¬b[i] ∧ b[i+1]`. -/
-def risingX (b : List Bool) : List Nat :=
-  (List.range (b.length - 1)).filter fun i => !b.getD i false && b.getD (i + 1) false
+/-- true rising crossings, in increasing order: the samples `i` with `¬b[i] ∧ b[i+1]`
+(see `C02_crossing_char`; defined by one linear scan so that it can be executed on long signals). -/
+def risingX (b : List Bool) : List Nat := crossingsAux (b.map (!·)) 0
 /-- true decaying crossings: `b[i] ∧ ¬b[i+1]`. -/
-def decayingX (b : List Bool) : List Nat :=
-  (List.range (b.length - 1)).filter fun i => b.getD i false && !b.getD (i + 1) false
+def decayingX (b : List Bool) : List Nat := crossingsAux b 0
 
 /-- positive half-waves closed on both sides: a rising crossing `r` together with the first decaying
 crossing `d > r`. By `closedPos_char` these are exactly the pairs with `¬b[r]`, `b[j]` for `r<j≤d`, `¬b[d+1]`. -/
@@ -122,6 +121,22 @@ def troughsSpec (sig : List Rat) (b : List Bool) : List Nat :=
 /-- specification of the boundary rule. -/
 def boundarySpec (xs : List Nat) (pad sigLen : Nat) (boundary : Int) : List Int :=
   (xs.map fun (x : Nat) => Int.ofNat x - Int.ofNat pad).filter fun x => decide (boundary < x) && decide (x < (sigLen : Int) - boundary)
+
+/-- `altFrom k lo P T`: peaks `P` and troughs `T` merge into one strictly increasing sequence (above the
+optional bound `lo`) whose kinds alternate, beginning with a peak iff `k`. -/
+def altFrom : Bool → Option Int → List Int → List Int → Bool
+  | _, _, [], [] => true
+  | true, lo, p :: ps, ts =>
+    (match lo with | some l => decide (l < p) | none => true) && altFrom false (some p) ps ts
+  | false, lo, ps, t :: ts =>
+    (match lo with | some l => decide (l < t) | none => true) && altFrom true (some t) ps ts
+  | _, _, _, _ => false
+termination_by _ _ ps ts => ps.length + ts.length
+
+/-- peaks and troughs strictly alternate in time. -/
+def StrictAlt (P T : List Int) : Prop := altFrom true none P T = true ∨ altFrom false none P T = true
+
+instance (P T : List Int) : Decidable (StrictAlt P T) := by unfold StrictAlt; infer_instance
 
 /-- specification of the `first_extrema` rule on a strictly alternating pair of lists: keep everything
 from the first extremum of the requested kind through the last extremum of the other kind. -/
